@@ -125,6 +125,16 @@ CHECKS = {
               'Thousands of (pair, gene) decisions per run; don\'t-care '
               'bands counted.',
               'DESIGN.md section 2 C11', _BASE_NOTE),
+    'C12': _e('exploration',
+              'reference-model monitor: the real greedy selection run on '
+              'pipeline-made and synthesised reference-marker tables; an '
+              'independent census (scipy over the file\'s arrays + the '
+              'model\'s leaf pairs) checks duplicates, query membership, '
+              'usefulness and the per-pair coverage bound min(2 x target, '
+              'available); differential over worker count and '
+              'large-parent threshold',
+              'Every (parent, leaf pair) of every generated table.',
+              'DESIGN.md section 2 C12', _BASE_NOTE),
     'C13': _e('exploration',
               'reference-model monitor: real on-disk transposition '
               'routines (serial, sliced, value-less, parallel with 1-4 '
